@@ -404,7 +404,7 @@ theorem loop_usable_after_protocol_exit (s : TLoop) (hinv : PInv s.loop) (hr : s
   intro s1 s2
   obtain ⟨a1, a2, a3⟩ := dropRx_keeps_running s hinv hr d p hdp hp
   have a4 : s1.subs[k]? = some x :=
-    negotiating_persists s (.dropRx d) k x hk hx (fun p h => by cases h) (fun h => by cases h)
+    negotiating_persists s (.dropRx d) k x hk hx rfl
       ((running_iff _).mp a1).1
   obtain ⟨b1, b2, b3⟩ := negOk_live s1 a1 k p x a4 hx a2
   exact ⟨⟨a1, a2, a3, a4⟩, b1, negOk_queues s1 k p x a1 a4 hx a2 b1,
